@@ -54,12 +54,15 @@ def specLoop : Nat → State → State × Outcome
     | .none => (s1, .eof)
     | .error => ({ s1 with status := 2 }, .syntaxError)
     | .incomplete => ({ s1 with status := 2 }, .syntaxError)
-    | .ok cs bodies =>
-      let r := runK bodies execFuel (cmds cs) s1
-      if r.2 then specLoop n r.1 else (r.1, .outOfFuel)
+    | .ok cs =>
+      let r := runK execFuel (cmds cs) s1
+      if r.2 then (if r.1.aborted then (r.1, .syntaxError) else specLoop n r.1) else (r.1, .outOfFuel)
 
 def specRun (shared : Bool) (script data : List Byte) : State × Outcome :=
   specLoop (script.length + 2) (initState shared script data)
+
+def specRunFile (script data : List Byte) : State × Outcome :=
+  specLoop (script.length + 2) (initStateFile script data)
 
 def isSuffix (a b : List Byte) : Bool := a.length ≤ b.length && b.drop (b.length - a.length) == a
 
@@ -101,28 +104,37 @@ def chunksOf (sizes : List Nat) : Nat → Nat → List Byte → List (List Byte)
 
 /-- `prefix_monotone` evaluated at the given prefixes: a prefix whose own run ends cleanly has a trace
     that the whole run extends -/
-def checkPrefixes (shared : Bool) (data : List Byte) (full : List Out) : List (List Byte) → Bool
+def checkPrefixes (fileSrc shared : Bool) (data : List Byte) (full : List Out) (fullEcho : List Byte) :
+    List (List Byte) → Bool
   | [] => true
   | p :: ps =>
-    let r := run shared p data
-    (if r.2.1 == .eof && !r.1.hitEof then (traceOf r).isPrefixOf full else true)
-      && checkPrefixes shared data full ps
+    let r := if fileSrc then runFile p data else run shared p data
+    (if r.2.1 == .eof && !r.1.hitEof then (traceOf r).isPrefixOf full && r.1.echo.isPrefixOf fullEcho
+     else true)
+      && checkPrefixes fileSrc shared data full fullEcho ps
 
-def check (shared : Bool) (script data : List Byte) (prefixes : List (List Byte))
+/-- does the script use `read -d` (then `read` may stop in the middle of a line) -/
+def usesDelim : List Byte → Bool
+  | 45 :: 100 :: 32 :: _ => true
+  | _ :: rest => usesDelim rest
+  | [] => false
+
+def check (fileSrc shared : Bool) (script data : List Byte) (prefixes : List (List Byte))
     (chunks : Option (List (List Byte))) (r : State × Outcome × List Iter) : String :=
   match checkLog script r.2.2 with
   | some w => "FAIL:" ++ w
   | none =>
-    if shared && validUtf8 [] script && !(probeOffsets r.1.out).all (lineStart script) then "FAIL:offset-inside-line"
-    else if !checkPrefixes shared data (traceOf r) prefixes then "FAIL:prefix-not-monotone"
+    if shared && validUtf8 [] script && !usesDelim script
+       && !(probeOffsets r.1.out).all (lineStart script) then "FAIL:offset-inside-line"
+    else if !checkPrefixes fileSrc shared data (traceOf r) r.1.echo prefixes then "FAIL:prefix-not-monotone"
     else match chunks with
       | some cs =>
         if cs.flatten != script then "FAIL:chunks"
         else if linesOfC (script.length + 1) cs != linesOf (script.length + 1) script
         then "FAIL:chunking-changes-lines"
         else
-          let rc := readLineCGo true false [] cs []
-          let rf := readLine true script []
+          let rc := readLineCGo 10 true false [] cs []
+          let rf := readLine 10 true script []
           if (rc.1, rc.2.1, rc.2.2.flatten) != rf then "FAIL:chunking-changes-read"
           else if shared then
             -- the machine that only ever reads the chunk list, against the flat run
